@@ -17,6 +17,8 @@ ASSUMPTIONS = ["np.linspace / np.insert / np.pad are trusted black boxes; linear
                "extend_linspace's default end values are only defined for len(a) > n (the code indexes a[n])"]
 ANCHORS = {"sorted_array_utils.py": [(8, 233), (236, 315), (552, 576)], "interval.py": [(56, 97), (154, 365)],
            "process.py": [(319, 321)]}
+FORMS_HARNESSES = "all"
+FORMS_EXCLUDE = {"long-arrays": ["readonly"], "interval-histories": ["readonly"], "interval-view": ["readonly"]}   # the interval view writes through to the array it was given: refusing a read-only array is correct
 EXPLANATION = "literal list-code contracts evaluated on every element of a bounded input lattice"
 
 
